@@ -102,6 +102,12 @@ func Replay(path string) int {
 					fmt.Printf(" %s:st%d,d%d,i%d,is%d,q%d", sb.RID, sb.State, sb.Direct, sb.Indirect, sb.IndirectSent, sb.QueueFlag)
 				}
 			}
+			for _, e := range w.CacheSnaps() {
+				fmt.Printf(" | %s count=%d q=%d", e.Name, e.Count, e.QueueLen)
+				for _, r := range e.Resources {
+					fmt.Printf(" {%q st%d subs%d}", r.Query, r.State, len(r.Subs))
+				}
+			}
 			fmt.Println()
 		}
 		w.Close()
